@@ -148,7 +148,7 @@ def evaluate(case) -> Verdict:
         data = {"m": gd.decode(val), "lst": [gd.decode(val)]}
         src = SAFE_SHAPES[case["i"] % len(SAFE_SHAPES)]
         env = envs.make_env(_cfg(True, True), {"p": "{{ x }}"})
-        o = oc.outcome_of(lambda: env.from_string(src).render(**data))
+        o = oc.render(case, lambda: env.from_string(src), **data)
         raw = val["v"]
         if o[0] != "ok" or raw not in o[1]:
             v.fail(f"safe-value-altered:{val['$']}", f"{src!r} with m={val!r}: {oc.short(o)!r:.200} does not contain {raw!r}")
@@ -164,7 +164,7 @@ def evaluate(case) -> Verdict:
     if p[0] != "ok":
         v.labels.append("unparsed")
         return v
-    o = oc.outcome_of(lambda: p[1].render(**data))
+    o = oc.render(case, lambda: p[1], **data)
     if o[0] != "ok":
         v.labels.append("render-error")
         return v
@@ -194,10 +194,10 @@ def evaluate(case) -> Verdict:
     else:
         env0 = envs.make_env(_cfg(False, ternary), PARTIALS)
         flag0 = _spy(env0)
-        o0 = oc.outcome_of(lambda: env0.from_string(src).render(**data))
+        o0 = oc.render(case, lambda: env0.from_string(src), **data)
         env1 = envs.make_env(_cfg(True, ternary), PARTIALS)
         flag1 = _spy(env1)
-        o1 = oc.outcome_of(lambda: env1.from_string(src).render(**data))
+        o1 = oc.render(case, lambda: env1.from_string(src), **data)
         # asserted only when no special character occurred anywhere: not in the output and not in
         # any string a filter received or produced (stringified collections contain quotes)
         clean = o0[0] == "ok" and not _has_special(o0[1]) and not flag0 and not flag1
